@@ -18,6 +18,9 @@ Definition history_oracle (input o : json) : option string :=
   else if (g "salt_byte_values_seen" <? 250)%N then Some "the bytes of the salts take only a part of the 256 values: the salts carry fewer than 128 random bits"
   else if (g "clone_groups" <? 10)%N then Some "too few groups of cloned issuers observed"
   else if negb (g "clone_groups_frozen" =? 0)%N then Some "six clones of one prepared issuer put every claim's digest at the same position of the top-level list: the clones share their random choices, the order of the list tells which digest hides which claim"
+  else if (g "long_lists_seen" <? 100)%N then Some "too few nested digest lists of 320 entries observed"
+  else if (g "long_lists_seen" * 6 <? g "long_last_marked_in_first_quarter" * 10)%N then Some "in nested digest lists of 320 entries the digest of the claim marked last lies in the first quarter of the list in more than 60% of the issuances (a uniform position puts it there in 25%): the order of a long list tells the order in which the claims were marked"
+  else if (g "long_lists_seen" * 6 <? g "long_first_marked_in_last_quarter" * 10)%N then Some "in nested digest lists of 320 entries the digest of the claim marked first lies in the last quarter of the list in more than 60% of the issuances (a uniform position puts it there in 25%): the order of a long list tells the order in which the claims were marked"
   else if negb (g "dup_salts" =? 0)%N then Some "a salt repeats across disclosures or issuances"
   else if negb (g "dup_digests" =? 0)%N then Some "a digest repeats across claims or issuances"
   else if negb (g "dup_decoys" =? 0)%N then Some "a decoy digest repeats: the decoy space is small enough to enumerate"
